@@ -37,7 +37,7 @@ def cases(tier, seed):
     out = [{"D": 2 if i % 5 else 3, "opt": opts[i % 3], "loss": ["smse", "normalized"][(i // 3) % 2]} for i in range(n)]
     # fixed histories: a pseudo-scalar / pseudo-vector type carried through normalisation (parameterisations that are
     # equivariant at initialisation only would be moved off it by the optimiser)
-    for j, f in enumerate(FIXED if tier == "thorough" else FIXED[:4]):
+    for j, f in enumerate(FIXED if tier == "thorough" else FIXED[:5]):
         out.append({"D": 2, "opt": opts[j % 3], "loss": "smse", "cfg": f})
     return out
 
@@ -47,6 +47,10 @@ FIXED = [
     {"cls": "ResNet", "D": 2, "equivariant": True, "in_sig": [[[0, 0], 2], [[1, 0], 1]], "out_sig": [[[1, 0], 1], [[0, 0], 2]], "depth": 2, "num_blocks": 1, "num_conv": 1, "num_downsamples": 1, "activation": "gelu", "norm": False, "preact": False, "bias": "auto", "bank_ks": [0, 1, 2], "torus": [True, True], "N": [4, 4], "keep_depth": True},
     {"cls": "ResNet", "D": 2, "equivariant": True, "in_sig": [[[0, 1], 1], [[1, 0], 1]], "out_sig": [[[0, 1], 1]], "depth": 1, "num_blocks": 1, "num_conv": 1, "num_downsamples": 1, "activation": "gelu", "norm": True, "preact": True, "bias": "auto", "bank_ks": [0, 1, 2], "torus": [True, True], "N": [4, 4]},
     {"cls": "ConvBlock", "D": 2, "equivariant": True, "in_sig": [[[0, 1], 2], [[1, 1], 1]], "out_sig": [[[0, 1], 2], [[1, 1], 2]], "depth": 1, "num_blocks": 1, "num_conv": 1, "num_downsamples": 1, "activation": "relu", "norm": True, "preact": False, "bias": "mean", "bank_ks": [0, 1, 2], "torus": [False, False], "N": [4, 5]},
+    # call history on the stop condition: ONE TrainLoss object is first used to train a conventional baseline and then passed
+    # to the training of the equivariant model (one shared kwargs dict, as in ml.benchmark); what the second call returns must
+    # still be the equivariant model
+    {"cls": "ResNet", "D": 2, "equivariant": True, "shared_stop": True, "kernel_size": 3, "in_sig": [[[0, 0], 1], [[1, 0], 1]], "out_sig": [[[1, 0], 1], [[0, 0], 1]], "depth": 2, "num_blocks": 1, "num_conv": 1, "num_downsamples": 1, "activation": "gelu", "norm": False, "preact": False, "bias": "auto", "bank_ks": [0, 1, 2], "torus": [True, True], "N": [4, 4], "keep_depth": True},
     {"cls": "UNet", "D": 2, "equivariant": True, "in_sig": [[[1, 0], 1], [[0, 1], 1]], "out_sig": [[[0, 1], 1], [[1, 0], 1]], "depth": 1, "num_blocks": 1, "num_conv": 1, "num_downsamples": 1, "activation": "tanh", "norm": True, "preact": False, "bias": "auto", "bank_ks": [0, 1, 2], "torus": [True, True], "N": [4, 4]},
     {"cls": "DilResNet", "D": 2, "equivariant": True, "in_sig": [[[0, 1], 1], [[1, 1], 1]], "out_sig": [[[1, 1], 1]], "depth": 1, "num_blocks": 1, "num_conv": 1, "num_downsamples": 1, "activation": "relu", "norm": True, "preact": False, "bias": "scalar", "bank_ks": [0, 1, 2], "torus": [False, False], "N": [5, 5]},
 ]
@@ -171,9 +175,19 @@ def run(case, ctx):
                 return lossf(out, y), aux
 
             # a history that diverges numerically (non-finite parameters) is repeated with a 10x smaller step size
+            shared = bool(cfg.get("shared_stop"))
             for shrink in (1.0, 0.1, 0.01):
                 opt = {"sgd": optax.sgd(2e-3 * shrink), "adam": optax.adam(1e-2 * shrink), "adamw": optax.adamw(1e-2 * shrink, weight_decay=0.1)}[case["opt"]]
-                trained = ml.train(X, Y, map_and_loss, model, jax.random.PRNGKey(case["i"]), ml.EpochStop(epochs), B, opt)[0]
+                cond = ml.EpochStop(epochs)
+                if shared:
+                    cond = ml.TrainLoss(patience=0, min_delta=0.05)
+                    baseline = mlgen.build_model(dict(cfg, equivariant=False), case["i"] + 1)
+                    ml.train(X, Y, map_and_loss, baseline, jax.random.PRNGKey(case["i"] + 7), cond, B, optax.adam(3e-2))
+                    _mon.take()
+                    steps0, moved0 = _mon.steps, _mon.moved
+                trained = ml.train(X, Y, map_and_loss, model, jax.random.PRNGKey(case["i"]), cond, B, opt)[0]
+                if shared and jax.tree_util.tree_structure(trained) != jax.tree_util.tree_structure(model):
+                    viols.append(viol("train-returned-foreign-model", f"ml.train was given an equivariant {cfg['cls']} and a stop condition that had been used before; it returned a model of another structure (the earlier run's); {key}"))
                 evals += 1
                 if all(np.all(np.isfinite(a)) for _, a in mlgen.param_leaves(trained)):
                     break
@@ -182,7 +196,7 @@ def run(case, ctx):
             viols += _mon.take()
             steps = _mon.steps - steps0
             moved = _mon.moved - moved0
-            if steps != epochs * (L // B):
+            if steps != epochs * (L // B) and not shared:
                 viols.append(viol("train-step-count", f"{steps} optimiser steps observed, expected {epochs * (L // B)}; {key}"))
             res = None
             if not all(np.all(np.isfinite(a)) for _, a in mlgen.param_leaves(trained)):
